@@ -142,13 +142,22 @@ def roundtrip_ok(ns: int) -> bool:
     return Instant.from_seconds(Instant(ns).to_seconds()).nanoseconds == ns
 
 
+def latency_roundtrip_ok(ns: int) -> bool:
+    """ConstantLatency keeps float seconds and converts back with int(): the override used by a
+    compared program must survive that round trip, or the link would not add the scripted delay."""
+    return ConstantLatency(Duration(ns)).get_latency(Instant.Epoch).nanoseconds == ns
+
+
 class _FixedLatency:
-    """Duck-typed link.latency: the coordinator calls .sample() and adds the result to send_time."""
+    """Duck-typed link.latency (constant delay): offers both sample() and get_latency(now)."""
 
     def __init__(self, ns):
         self._ns = ns
 
     def sample(self):
+        return Duration(self._ns)
+
+    def get_latency(self, current_time):     # the LatencyDistribution protocol
         return Duration(self._ns)
 
 
